@@ -220,6 +220,7 @@ def c03(out, a):
             after = fhex(Fc) + ([] if svc is None else fhex(svc))
             P2 = grad(m, Fc, svc)
             out.write({"id": rid, "kind": "noalias", "nt": True, "before": before, "after": after, "fresh": fhex(P1), "reused": fhex(P2)})
+    kinematics(out, F, rng)
     # mixed (u, p, J) formulations: every returned block is the mixed second derivative (None = 0)
     p0 = rng.randint(-2, 3, size=(1, n, 1)) / 8.0
     J0 = 1 + rng.randint(-1, 2, size=(1, n, 1)) / 16.0
@@ -296,6 +297,33 @@ def c03(out, a):
                 AD = np.einsum("ijkl...,kl->ij...", Hh, D)
                 out.write({"id": rid, "kind": "deriv", "nt": True, "clause": "ElastIsDP", "tolscale": 1,
                            "modes": [], "D1": q(Ds[0], SD), "D2": q(Ds[1], SD), "D3": q(Ds[2], SD), "rhs": q(AD, SK)})
+
+
+def kinematics(out, F, rng):
+    """kinematic quantities offered as function / gradient (/ hessian) triples: volume, area and line change"""
+    D = rng.randint(-1, 2, size=(3, 3)).astype(float)
+    Db = D[:, :, None, None]
+    N = np.array([2.0, -1.0, 2.0]) / 3.0
+
+    def rec(rid, clause, lo, hi_contracted):
+        if out.want(rid):
+            Ds = [lo(F + s * H * Db) - lo(F - s * H * Db) for s in (1, 2, 3)]
+            out.write({"id": rid, "kind": "deriv", "nt": True, "clause": clause, "tolscale": 1, "modes": [],
+                       "D1": q(Ds[0], SD), "D2": q(Ds[1], SD), "D3": q(Ds[2], SD), "rhs": q(hi_contracted, SK)})
+
+    vc = fem.constitution.VolumeChange()
+    rec("deriv-VolumeChange-function", "StressIsDW", lambda X: np.asarray(vc.function([X])[0], float),
+        np.einsum("ij...,ij->...", np.asarray(vc.gradient([F])[0], float), D))
+    rec("deriv-VolumeChange-gradient", "ElastIsDP", lambda X: np.asarray(vc.gradient([X])[0], float),
+        np.einsum("ijkl...,kl->ij...", np.asarray(vc.hessian([F])[0], float), D))
+    ac = fem.constitution.AreaChange()
+    rec("deriv-AreaChange-function", "ElastIsDP", lambda X: np.asarray(ac.function([X])[0], float),
+        np.einsum("ijkl...,kl->ij...", np.asarray(ac.gradient([F])[0], float), D))
+    rec("deriv-AreaChange-function-N", "ElastIsDP", lambda X: np.asarray(ac.function([X], N)[0], float),
+        np.einsum("ikl...,kl->i...", np.asarray(ac.gradient([F], N)[0], float), D))
+    lc = fem.constitution.LineChange()
+    rec("deriv-LineChange-function", "ElastIsDP", lambda X: np.asarray(lc.function([X])[0], float),
+        np.einsum("ijkl...,kl->ij...", np.broadcast_to(np.asarray(lc.gradient([F])[0], float), (3, 3, 3, 3) + F.shape[-2:]), D))
 
 
 ROTS = [(3, [[2, -1, 2], [2, 2, -1], [-1, 2, 2]]), (7, [[2, 3, 6], [3, -6, 2], [-6, -2, 3]]), (1, [[0, -1, 0], [1, 0, 0], [0, 0, 1]]),
